@@ -266,7 +266,7 @@ func CompactJSON(input, output []byte) []byte {
 			// Skip over whitespace.
 			continue
 		}
-		if c == '-' && input[i] == '0' {
+		if c == '-' && input[i] == '0' && isNegativeZero(input, i) {
 			// Negative 0 is changed to '0', skip the '-'.
 			continue
 		}
@@ -302,6 +302,22 @@ func CompactJSON(input, output []byte) []byte {
 		}
 	}
 	return output
+}
+
+// isNegativeZero returns true if the '-' before input[index] (which is '0') is the
+// sign of the number -0. It is not if it is the sign of an exponent ("1e-05") or
+// if the zero is followed by a fraction or an exponent ("-0.5", "-0e1").
+func isNegativeZero(input []byte, index int) bool {
+	if index >= 2 && (input[index-2] == 'e' || input[index-2] == 'E') {
+		return false
+	}
+	if index+1 < len(input) {
+		switch input[index+1] {
+		case '.', 'e', 'E':
+			return false
+		}
+	}
+	return true
 }
 
 // compactUnicodeEscape unpacks a 4 byte unicode escape starting at index.
